@@ -56,13 +56,15 @@ theorem arcS_le_one {a : Agent} (h : Inv a) (hp : PrflxRel0 a) (c : Cand) :
   obtain ⟨e2, he2, rfl⟩ := List.mem_map.1 h2
   obtain ⟨m1, n1, t1, a1, _⟩ := arcReplaced_mem he1
   obtain ⟨m2, n2, t2, a2, _⟩ := arcReplaced_mem he2
+  have f1 := arcReplaced_tt he1
+  have f2 := arcReplaced_tt he2
   have r1 := hp (core e1) (mem_rcsOf m1) t1
   have r2 := hp (core e2) (mem_rcsOf m2) t2
   rcases pairwise_mem h.s.remNE (mem_rcsOf m1) (mem_rcsOf m2) with h3 | h3 | h3
   · have := congrArg Cand.uid h3; simpa using this
-  · simp [Cand.equal, Cand.taEqual, n1, n2, a1, a2, t1, t2] at h3
+  · simp [Cand.equal, Cand.taEqual, Cand.udpResolved, n1, n2, a1, a2, t1, t2, f1, f2] at h3
     simp at r1 r2; rw [r1, r2] at h3; simp at h3
-  · simp [Cand.equal, Cand.taEqual, n1, n2, a1, a2, t1, t2] at h3
+  · simp [Cand.equal, Cand.taEqual, Cand.udpResolved, n1, n2, a1, a2, t1, t2, f1, f2] at h3
     simp at r1 r2; rw [r1, r2] at h3; simp at h3
 
 theorem NoDupPairs.stage3 {a : Agent} (h : Inv a) (hc : a.closed = false) (hd : NoDupPairs a) (hp : PrflxRel0 a)
@@ -140,7 +142,7 @@ theorem dup_trans {e : Ev} {w : Bool} (hok : evOK e = true) {b c : Agent} (hi : 
   | remote c hc hb hf hsrc =>
     refine ⟨hd.stage3 hi hc hp c, hp.stage3 hi c ?_⟩
     intro hty
-    rcases hsrc with ⟨_, h2, _⟩ | ⟨now, he⟩
+    rcases hsrc with ⟨_, h2, _, _⟩ | ⟨now, he⟩
     · exact h2
     · subst he
       simpa [evOK, hty] using hok
@@ -157,9 +159,18 @@ literals, so `Cand.form` (the spelling a candidate was signalled with) takes par
 
 /-- `Equal` with the address compared canonically and the literal ignored (what the property text means by "the
 same candidate"), written independently of `Cand.equal` -/
-def canonEqual (x y : Cand) : Bool := x.net == y.net && x.addr == y.addr && x.ty == y.ty && x.rel == y.rel
+def canonEqual (x y : Cand) : Bool :=
+  x.net == y.net && x.addr == y.addr && x.tt == y.tt && x.ty == y.ty && x.rel == y.rel
 
-theorem canonEqual_eq (x y : Cand) : canonEqual x y = x.equal y := rfl
+theorem canonEqual_eq (x y : Cand) : canonEqual x y = x.equal y := by
+  rw [Bool.eq_iff_iff]
+  simp only [canonEqual, Cand.equal, Cand.taEqual, Cand.udpResolved, Bool.and_eq_true, beq_iff_eq, Bool.or_eq_true,
+    Bool.not_eq_true']
+  constructor
+  · rintro ⟨⟨⟨⟨h1, h2⟩, h3⟩, h4⟩, h5⟩
+    exact ⟨⟨⟨⟨h1, h2⟩, h3, by rw [h4]; simp⟩, h4⟩, h5⟩
+  · rintro ⟨⟨⟨⟨h1, h2⟩, h3, _⟩, h4⟩, h5⟩
+    exact ⟨⟨⟨⟨h1, h2⟩, h3⟩, h4⟩, h5⟩
 
 theorem dup_step {a : Agent} (hi : Inv a) (hd : NoDupPairs a) (hp : PrflxRel0 a) (e : Ev) (hok : evOK e = true) :
     NoDupPairs (step a e).1 ∧ PrflxRel0 (step a e).1 :=
